@@ -755,6 +755,17 @@ class VerifyMixin:
             raise EngineError(f"{kind} escaped function {key}")
         if kind in ("next", "ret"):
             res = v if kind == "ret" else NONE
+            # the declared return type is what callers assume (a fresh value of that type): a scalar of another kind (a sentinel string where an
+            # integer is promised, None where a value is promised) is a violation, not an engine error in the clauses that compare it
+            RT = c.returns_
+            scal = {ty._Int: (VInt,), ty._Str: (VStr,), ty._Bool: (VBool,), ty._Real: (VReal, VInt)}
+            want = scal.get(type(RT.inner if isinstance(RT, ty.Opt) else RT))
+            if want is not None and isinstance(res, (VInt, VStr, VBool, VReal, VNone)) and not isinstance(res, want) \
+                    and not (isinstance(res, VNone) and isinstance(RT, ty.Opt)) and not (isinstance(res, VBool) and VInt in want):
+                self.prove(s, z3.BoolVal(False), f"{key}:post/returns-a-value-of-the-declared-type", prop=self.prop_of(None))
+                exits.append(("ret", s, dict(env), old))
+                self.check_frame(c, key, s, old, env)
+                return
             e2 = dict(env)
             e2[c.result_name] = res
             self.cur_env = e2
